@@ -47,7 +47,7 @@ func c06MakeEntry(dir, name, kind string, w *World) {
 func TestC06(t *testing.T) {
 	r := NewReporter(t)
 	defer r.Done()
-	r.Rule("directories with 0..3 entries of every kind combination (file, dir, symlink->file, symlink->dir, dangling, self-referencing link, link through a regular file) and name sets (ASCII, space, non-ASCII, 255 bytes, not valid UTF-8) x every interleaving of {ReadDir, ReadDirEntry, ReadDirEntryV2} of length <= entries+2 after OpenDir; sizes and modification times beyond 32 bits; directories named like disc images (with key files) and like protocol keywords; all histories of <= 3 (thorough 4) requests over {three listing commands, open / CLOSEFILE / failed open of a file, read, stat, dir-size, failed open-dir} between OpenDir and two more listing commands; entry-count families (1..40 / 1..300 contiguous, then powers of two +-1 up to 4097); listings after another client abandoned its own (write failure or reset after k bytes of a 1500-entry bulk answer, disconnect between entries); Stat and GetDirSize on every path of every tree with <= 3 nodes; distinct by (directory shape, command sequence)")
+	r.Rule("directories with 0..3 entries of every kind combination (file, dir, symlink->file, symlink->dir, dangling, self-referencing link, link through a regular file) and name sets (ASCII, space, non-ASCII, 255 bytes, not valid UTF-8) x every interleaving of {ReadDir, ReadDirEntry, ReadDirEntryV2} of length <= entries+2 after OpenDir; sizes and modification times beyond 32 bits; directories named like disc images (with key files) and like protocol keywords; all histories of <= 3 (thorough 4) requests over {three listing commands, open / CLOSEFILE / failed open of a file, read, stat, dir-size, failed open-dir} between OpenDir and two more listing commands; entry-count families (1..40 / 1..300 contiguous, then powers of two +-1 up to 4097); listings after another client abandoned its own (write failure or reset after k bytes of a 1500-entry bulk answer, disconnect between entries); Stat and GetDirSize on every path of every tree with <= 3 nodes; 11 kinds of change to the tree between two probes of stat / dir-size / listings (in-place growth and shrinking, replacement, additions and removals two levels down, kind swaps, renames) x {times as they fall, all times restored} x {same connection, first asked by another client}; distinct by (directory shape, command sequence)")
 	w := newWorld(t, "srv/root")
 	defer w.Cleanup()
 	mkFileAbs(filepath.Join(w.Root, "targets", "tfile"), 1234, 7, baseTime.Add(time1(40)))
@@ -353,6 +353,75 @@ func TestC06(t *testing.T) {
 		for _, name := range []string{"CLOSEFILE", "***DVD***", "***PS3***", "REDKEY"} {
 			os.RemoveAll(filepath.Join(w.Root, name))
 		}
+	}
+	// (f) the tree changes between requests (another program writes below the root, or modification times are
+	// restored afterwards as copy tools do): every answer describes the tree as it is when the request is made -
+	// on the connection that asked before, and on a connection that comes after another client asked
+	{
+		base := filepath.Join(w.Root, "M")
+		probe := func() []Req {
+			var reqs []Req
+			for _, p := range []string{"/M/a.bin", "/M/s1/b.bin", "/M/s1/z.bin", "/M/s1/s2/c.bin", "/M/s1/s2/d.bin", "/M/s1", "/M/s9", "/M/e", "/M/a.bin/inner.bin"} {
+				reqs = append(reqs, mkReq(opStatFile, p))
+			}
+			for _, p := range []string{"/M", "/M/s1", "/M/s1/s2", "/M/e", "/M/s9", "/"} {
+				reqs = append(reqs, mkReq(opGetDirSize, p))
+			}
+			for _, p := range []string{"/M", "/M/s1", "/M/s1/s2"} {
+				reqs = append(reqs, mkReq(opOpenDir, p), noargReq(opReadDir), mkReq(opOpenDir, p), noargReq(opReadDirEntry), noargReq(opReadDirEntryV2), noargReq(opReadDirEntry), noargReq(opReadDirEntry))
+			}
+			return reqs
+		}
+		for _, ch := range treeChanges() {
+			for _, restore := range []bool{false, true} {
+				for _, other := range []bool{false, true} {
+					caseIdx++
+					if !r.Mine(caseIdx) {
+						continue
+					}
+					ch, restore := ch, restore
+					changeBaseTree(base)
+					apply := func() {
+						ch.do(base)
+						if restore {
+							setAllTimes(base, baseTime)
+						}
+					}
+					desc := sprintf("tree changes between requests: %s (times restored=%v, first asked by another client=%v)", ch.name, restore, other)
+					first := probe()
+					var reqs []Req
+					d := Delivery{}
+					if other {
+						d.Prelude = func(s *Sess) {
+							c := s.Dial(nil)
+							for _, rq := range first {
+								s.Exchange(c, rq.Encode())
+							}
+							c.Fin()
+							synctest.Wait()
+							apply()
+						}
+						reqs = probe()
+					} else {
+						reqs = append(first, probe()...)
+						d.Before = map[int]func(){len(first): apply}
+					}
+					m := newModel(w.Root, false)
+					res := runSession(t, SrvOpts{Root: w.Root}, m, reqs, d)
+					r.Transition(int64(len(res.Steps)))
+					r.Eval(1)
+					r.State(desc)
+					r.Nontrivial(desc)
+					for _, st := range res.Steps {
+						r.Outcome(st.Class)
+					}
+					if res.Why != "" {
+						r.Violation("C06:changed-tree:"+res.WhySig, desc+": "+res.Why, map[string]any{"dir": desc, "requests": reqs, "steps": res.Steps})
+					}
+				}
+			}
+		}
+		os.RemoveAll(base)
 	}
 	// (c) stat and dir-size on every path of every small tree
 	maxNodes := 3
